@@ -33,6 +33,15 @@ def step (σ : St) (op obs : List String) : St × List Msg :=
         ++ (if final = m then [] else [Msg.propfail "merge_monotone" "merge-overwrites-concurrent-newer"
               s!"the key holds firing={final} after a Merge of an older entry (+{bu} ns) raced a local Log (+{lu} ns); newest-wins gives {m}: the merged older entry replaced the newer one"])
         ++ [.tag "mergerace"])
+  | ["bigentry", n], [merged, atB, reloaded] =>
+    -- an entry is accepted by a peer and reloaded by the next start whatever its size below the format's record limit
+    -- (AM.Nflog.merge_result: an unexpired entry for an unknown key is stored; C11's loader limit is 4 MiB)
+    let want := s!"{n}/1"
+    (σ, (if merged = "ok" ∧ atB = want then [] else [Msg.propfail "merge_result" "large-entry-refused"
+            s!"a log entry listing {n} firing alerts (and a small one in the same full state): Merge {merged}, the peer holds big/small = {atB}, expected {want}"])
+        ++ (if reloaded = want then [] else [Msg.propfail "gc_spec" "large-entry-lost-over-restart"
+            s!"after a clean shutdown the next start has big/small = {reloaded}, expected {want}"])
+        ++ [.tag "bigentry"])
   | ["renamefault", _], [n, _] =>
     (σ, (if n = "1" then [] else [Msg.propfail "gc_spec" "unexpired-entry-lost-over-restart"
             "the snapshot could not be installed for a few maintenance runs (rename failed), then it could; after a clean shutdown the next start does not have the unexpired entry: later maintenance runs and the shutdown run did not write the snapshot"])
